@@ -3,7 +3,7 @@
    theorems of Props/C11.v speak about. *)
 From Coq Require Import NArith List.
 From BU Require Import Base.Exn Base.Bytes Gen.Consts Gen.CodecConsts.
-From BU Require Model.Base58 Model.Base58Xmr Model.ConvertBits.
+From BU Require Model.Base58 Model.Base58Xmr Model.ConvertBits Model.Base32.
 Import ListNotations.
 Open Scope N_scope.
 
@@ -21,3 +21,8 @@ Definition to_base32 (data : list N) : res (list N) :=
   ConvertBits.none_is_value_error (ConvertBits.convert_bits cb_to32_from cb_to32_to data true).
 Definition from_base32 (data : list N) : res (list N) :=
   ConvertBits.none_is_value_error (ConvertBits.convert_bits cb_from32_from cb_from32_to data false).
+
+(* ---- Base32Encoder / Base32Decoder ---- *)
+Definition b32_encode := Base32.encode b32_alphabet.
+Definition b32_encode_no_padding := Base32.encode_no_padding b32_alphabet b32_pad_char.
+Definition b32_decode := Base32.decode b32_alphabet b32_pad_char.
